@@ -11,9 +11,11 @@ import (
 	"fmt"
 	"go/ast"
 	"go/format"
+	"go/parser"
 	"go/token"
 	"go/types"
 	"os"
+	"strings"
 
 	"golang.org/x/tools/go/packages"
 )
@@ -119,6 +121,101 @@ func toSwitch(file *ast.File, info *types.Info) int {
 				cur = next
 			}
 			list[i] = sw
+			n++
+		}
+	}
+	ast.Inspect(file, func(x ast.Node) bool {
+		switch v := x.(type) {
+		case *ast.BlockStmt:
+			conv(v.List)
+		case *ast.CaseClause:
+			conv(v.Body)
+		case *ast.CommClause:
+			conv(v.Body)
+		}
+		return true
+	})
+	return n
+}
+
+// unswitch rewrites expression switches `switch tag { case a, b: … default: … }`
+// (no init clause, no fallthrough, no unlabeled break inside, a tag without
+// calls so that it may be evaluated several times) into if / else-if chains
+// `if tag == a || tag == b {…} else {…}`. The reverse of toSwitch for tagged
+// switches.
+func unswitch(file *ast.File, info *types.Info) int {
+	n := 0
+	hasCall := func(e ast.Expr) bool {
+		found := false
+		ast.Inspect(e, func(x ast.Node) bool {
+			if _, ok := x.(*ast.CallExpr); ok {
+				found = true
+			}
+			return !found
+		})
+		return found
+	}
+	conv := func(list []ast.Stmt) {
+		for i, st := range list {
+			sw, ok := st.(*ast.SwitchStmt)
+			if !ok || sw.Init != nil || sw.Tag == nil || hasCall(sw.Tag) || hasBreak(sw) {
+				continue
+			}
+			// comparable with == : basic, named basic, pointer, interface with constants
+			if t := info.TypeOf(sw.Tag); t == nil {
+				continue
+			} else if _, isIface := t.Underlying().(*types.Interface); isIface {
+				continue // case values of other dynamic types: keep
+			}
+			okAll := true
+			var def *ast.CaseClause
+			var clauses []*ast.CaseClause
+			for _, c := range sw.Body.List {
+				cc := c.(*ast.CaseClause)
+				for _, b := range cc.Body {
+					if br, ok := b.(*ast.BranchStmt); ok && br.Tok == token.FALLTHROUGH {
+						okAll = false
+					}
+				}
+				if cc.List == nil {
+					def = cc
+					continue
+				}
+				clauses = append(clauses, cc)
+			}
+			// the default clause must be last for the chain to keep its meaning
+			if def != nil && sw.Body.List[len(sw.Body.List)-1] != ast.Stmt(def) {
+				okAll = false
+			}
+			if !okAll || len(clauses) == 0 {
+				continue
+			}
+			var head, cur *ast.IfStmt
+			for _, cc := range clauses {
+				var parts []string
+				for _, v := range cc.List {
+					parts = append(parts, "("+types.ExprString(sw.Tag)+") == ("+types.ExprString(v)+")")
+				}
+				cond, perr := parser.ParseExpr(strings.Join(parts, " || "))
+				if perr != nil {
+					okAll = false
+					break
+				}
+				is := &ast.IfStmt{Cond: cond, Body: &ast.BlockStmt{List: cc.Body}}
+				if head == nil {
+					head, cur = is, is
+				} else {
+					cur.Else = is
+					cur = is
+				}
+			}
+			if !okAll {
+				continue
+			}
+			if def != nil {
+				cur.Else = &ast.BlockStmt{List: def.Body}
+			}
+			list[i] = head
 			n++
 		}
 	}
@@ -393,13 +490,15 @@ func main() {
 		for i, file := range pk.Syntax {
 			path := pk.CompiledGoFiles[i]
 			changed := false
-			if mode == "flip" || mode == "switch" || mode == "hoist" || mode == "fold" || mode == "incdec" || mode == "condvar" {
+			if mode == "flip" || mode == "switch" || mode == "hoist" || mode == "fold" || mode == "incdec" || mode == "condvar" || mode == "unswitch" {
 				k := 0
 				switch mode {
 				case "flip":
 					k = flip(file)
 				case "switch":
 					k = toSwitch(file, pk.TypesInfo)
+				case "unswitch":
+					k = unswitch(file, pk.TypesInfo)
 				case "fold":
 					k = fold(file, pk.TypesInfo)
 				case "incdec":
